@@ -508,6 +508,10 @@ func Run(s Script, next func(v *View) *Action) (Script, []Obs, Final) {
 
 	obs := make([]Obs, 0, len(s.Actions))
 	idleRearm := false
+	// F10 is: the reader re-arms the idle deadline after a frame although a query is outstanding. A first
+	// send after that frame arms the waiting-reply deadline again, so an idle deadline at expiry counts
+	// as F10 only when a frame was read after the last completed send.
+	frameAfterSend := false
 	qidForced := false
 	collect := func(o *Obs) {
 		// wait for every call whose return is enabled, then poll the rest
@@ -630,6 +634,7 @@ func Run(s Script, next func(v *View) *Action) (Script, []Obs, Final) {
 				case <-writtenCh:
 				case <-time.After(waitReturn):
 				}
+				frameAfterSend = false
 				if a.Hold {
 					cr.st = csHeld
 				} else {
@@ -658,6 +663,7 @@ func Run(s Script, next func(v *View) *Action) (Script, []Obs, Final) {
 				}
 			}
 			fc.feed(replyFrame(s.TCP, wid, a.Tag))
+			frameAfterSend = true
 			idleSeen++
 			fc.waitIdle(idleSeen, waitReturn)
 		case AFeedErr:
@@ -668,7 +674,7 @@ func Run(s Script, next func(v *View) *Action) (Script, []Obs, Final) {
 			}
 		case AExpire:
 			o.Code = fc.lastArm()
-			if o.Code == 1 {
+			if o.Code == 1 && frameAfterSend {
 				for _, x := range calls {
 					if (x.st == csWaiting || x.st == csHeld) && !x.replied {
 						idleRearm = true
